@@ -8,6 +8,7 @@ cd /verif
 export GOFLAGS=-mod=mod GOPROXY=off GOSUMDB=off GOTOOLCHAIN=local; unset GOWORK
 tmp=$(mktemp -d /tmp/mbthorough.XXXXXX); trap 'rm -rf "$tmp"' EXIT
 python3 tools/calibrate.py "$prop" --json "$tmp/cal.json" || true
+python3 tools/calibrate.py equiv '*' --prop "$prop" --json "$tmp/equiv.json" > "$tmp/equiv.txt" 2>&1 || true
 ( cd /repo && go vet ./... > "$tmp/vet.txt" 2>&1; echo "exit=$?" >> "$tmp/vet.txt" )
 ( cd /repo && staticcheck ./... > "$tmp/sc.txt" 2>&1; echo "exit=$?" >> "$tmp/sc.txt" )
 ( cd /repo && errcheck ./... > "$tmp/ec.txt" 2>&1; echo "exit=$?" >> "$tmp/ec.txt" )
@@ -25,6 +26,15 @@ def summ(f):
     except Exception: return {"error":"not run"}
     return {"lines":len(lines)-1,"first":lines[:5]}
 ev['coverage']['calibration']=cal
+try:
+    eq=json.load(open(tmp+'/equiv.json'))
+    ev['coverage']['behaviour_preserving_variants']={"note":"every variant keeps behaviour; this property's check must stay silent on each (known limitations are listed in mutants/equiv/KNOWN_ALARMS.json)",
+      "variants":len(eq),"silent":sum(1 for e in eq if e.get('status')=='silent'),
+      "known_limitation":[e['id'] for e in eq if e.get('status')=='known-limitation'],
+      "false_alarms":[e['id'] for e in eq if e.get('status')=='FALSE-ALARM'],
+      "skipped":[e['id'] for e in eq if e.get('status')=='skipped']}
+except Exception as e:
+    ev['coverage']['behaviour_preserving_variants']={"error":str(e)}
 ev['coverage']['crossref']={"note":"cross-reference only; these tools decide nothing","go_vet":summ(tmp+'/vet.txt'),"staticcheck":summ(tmp+'/sc.txt'),"errcheck":summ(tmp+'/ec.txt')}
 json.dump(ev,open('/verif/evidence/%s.json'%prop,'w'),indent=1)
 print("thorough add-ons merged into evidence/%s.json: calibration killed %s/%s, missed=%s"%(prop,cal.get('killed'),cal.get('applied'),cal.get('missed')))
